@@ -1925,6 +1925,91 @@ func beliefBacked(p *Prog, fn *ssa.Function, call *ssa.Call, user ssa.Instructio
 	}
 	// builders of the receiver type
 	nBuilders, backed := 0, 0
+	// errValue: the error a call hands back — the last element of a tuple, or the call itself
+	errValue := func(c *ssa.Call) ssa.Value {
+		if _, isTuple := c.Type().(*types.Tuple); isTuple {
+			if fe := errExtract(c); fe != nil {
+				return fe
+			}
+			return nil
+		}
+		if isErrorType(c.Type()) {
+			return c
+		}
+		return nil
+	}
+	// failsWhenFails: g has a return that hands back a non-nil error where fe is known non-nil, or hands back fe itself
+	failsWhenFails := func(g *ssa.Function, fe ssa.Value) bool {
+		if fe == nil {
+			return false
+		}
+		for _, b := range g.Blocks {
+			ret, isRet := b.Instrs[len(b.Instrs)-1].(*ssa.Return)
+			if !isRet || len(ret.Results) == 0 || b == g.Recover {
+				continue
+			}
+			rv := returnedValue(ret, len(ret.Results)-1)
+			if !isErrorType(rv.Type()) {
+				continue
+			}
+			if p.origin(rv) == fe {
+				return true
+			}
+			if p.nilnessAt(fe, b) == 1 {
+				if cst, isC := rv.(*ssa.Const); !isC || !cst.IsNil() {
+					return true
+				}
+			}
+		}
+		return false
+	}
+	isBuilt := func(v, built ssa.Value) bool {
+		return v == built || p.origin(v) == built || cellAddr(v) == built
+	}
+	// checkedOn: g calls the constructor on the same fields of the object `built` and fails when it fails — itself,
+	// or through a repository function it hands the object to and whose error it returns (n.validate())
+	var checkedOn func(g *ssa.Function, built ssa.Value, depth int) bool
+	checkedOn = func(g *ssa.Function, built ssa.Value, depth int) bool {
+		res := false
+		instrsOf(g, func(in ssa.Instruction) {
+			c2, isCall := in.(*ssa.Call)
+			if !isCall || res {
+				return
+			}
+			h := c2.Call.StaticCallee()
+			if h == nil {
+				return
+			}
+			if h == sc && len(c2.Call.Args) == len(fields) {
+				for i, a := range c2.Call.Args {
+					if fields[i] == nil {
+						continue
+					}
+					u, isU := p.origin(a).(*ssa.UnOp)
+					if !isU || u.Op != token.MUL {
+						return
+					}
+					fa, isFA := u.X.(*ssa.FieldAddr)
+					if !isFA || fieldOfAddr(fa) != fields[i] || !isBuilt(addrRoot(fa), built) {
+						return
+					}
+				}
+				if failsWhenFails(g, errValue(c2)) {
+					res = true
+				}
+				return
+			}
+			if depth > 0 && p.InUniverse(h) && h.Blocks != nil {
+				for k, a := range c2.Call.Args {
+					if k < len(h.Params) && isBuilt(a, built) && checkedOn(h, h.Params[k], depth-1) && failsWhenFails(g, errValue(c2)) {
+						res = true
+						return
+					}
+				}
+			}
+		})
+		return res
+	}
 	for _, g := range p.Funcs {
 		var built *ssa.Alloc
 		instrsOf(g, func(in ssa.Instruction) {
@@ -1941,42 +2026,25 @@ func beliefBacked(p *Prog, fn *ssa.Function, call *ssa.Call, user ssa.Instructio
 		if os.Getenv("IV_DEBUG") != "" {
 			fmt.Fprintln(os.Stderr, "builder", funcKey(g), "of", recvT.Obj().Name())
 		}
-		ok := false
-		instrsOf(g, func(in ssa.Instruction) {
-			c2, isCall := in.(*ssa.Call)
-			if !isCall || c2.Call.StaticCallee() != sc || len(c2.Call.Args) != len(fields) {
-				return
-			}
-			for i, a := range c2.Call.Args {
-				if fields[i] == nil {
-					continue
-				}
-				u, isU := p.origin(a).(*ssa.UnOp)
-				if !isU || u.Op != token.MUL {
-					return
-				}
-				fa, isFA := u.X.(*ssa.FieldAddr)
-				if !isFA || fieldOfAddr(fa) != fields[i] || cellAddr(addrRoot(fa)) != ssa.Value(built) && p.origin(addrRoot(fa)) != ssa.Value(built) {
-					return
-				}
-			}
-			// its error is tested and the failing branch returns a non-nil error
-			fe := errExtract(c2)
-			if fe == nil || fe.Referrers() == nil {
-				return
-			}
+		ok := checkedOn(g, built, 2)
+		if !ok {
+			// a function that only assembles the object and returns it (defaultX()): the check is its callers' job
+			returnsIt := false
 			for _, b := range g.Blocks {
-				ret, isRet := b.Instrs[len(b.Instrs)-1].(*ssa.Return)
-				if !isRet || len(ret.Results) == 0 {
-					continue
+				if ret, isRet := b.Instrs[len(b.Instrs)-1].(*ssa.Return); isRet && len(ret.Results) == 1 && isBuilt(ret.Results[0], built) {
+					returnsIt = true
 				}
-				if p.nilnessAt(fe, b) == 1 {
-					if cst, isC := returnedValue(ret, len(ret.Results)-1).(*ssa.Const); !isC || !cst.IsNil() {
-						ok = true
+			}
+			if sites, closed := p.staticCallSites(g); returnsIt && closed && len(sites) > 0 {
+				ok = true
+				for _, site := range sites {
+					v, isVal := site.(ssa.Value)
+					if !isVal || !checkedOn(site.Parent(), v, 2) {
+						ok = false
 					}
 				}
 			}
-		})
+		}
 		if ok {
 			backed++
 		}
